@@ -52,6 +52,7 @@ type c15Op struct {
 	Target   string `json:"target,omitempty"`    // mint_to / burn_from: "" | "@i" | "@Ui" | anything else = unparsable
 	NewAdmin string `json:"new_admin,omitempty"` // "@i" | "@Ui" | anything else = unparsable
 	BadMeta  bool   `json:"bad_meta,omitempty"`
+	Join     bool   `json:"join,omitempty"` // this message rides in the same tx as the previous one
 }
 
 type c15Gen struct {
@@ -174,12 +175,25 @@ func (w *c15World) build(op c15Op) (sdk.Msg, c15OpObs) {
 	}
 }
 
-func (w *c15World) deliver(msg sdk.Msg, s int) abci.ResponseDeliverTx {
+// deliver puts the messages into ONE tx signed by every distinct sender (in order of appearance).
+func (w *c15World) deliver(msgs []sdk.Msg, senders []int) abci.ResponseDeliverTx {
 	c := w.c
 	ctx := c.Ctx()
-	acc := c.App.AccountKeeper.GetAccount(ctx, w.addrs[s])
-	tx, err := sims.GenSignedMockTx(rand.New(rand.NewSource(1)), c.TxCfg, []sdk.Msg{msg}, sdk.NewCoins(), 20_000_000, ctx.ChainID(),
-		[]uint64{acc.GetAccountNumber()}, []uint64{acc.GetSequence()}, w.privs[s])
+	var privs []cryptotypes.PrivKey
+	var nums, seqs []uint64
+	seen := map[int]bool{}
+	for _, s := range senders {
+		if seen[s] {
+			continue
+		}
+		seen[s] = true
+		acc := c.App.AccountKeeper.GetAccount(ctx, w.addrs[s])
+		privs = append(privs, w.privs[s])
+		nums = append(nums, acc.GetAccountNumber())
+		seqs = append(seqs, acc.GetSequence())
+	}
+	tx, err := sims.GenSignedMockTx(rand.New(rand.NewSource(1)), c.TxCfg, msgs, sdk.NewCoins(), 30_000_000, ctx.ChainID(),
+		nums, seqs, privs...)
 	if err != nil {
 		return abci.ResponseDeliverTx{Code: 9999, Log: "build: " + err.Error()}
 	}
@@ -295,12 +309,28 @@ func (w *c15World) runCase(t *testing.T, cs *c15Case) c15Obs {
 		add(cs.Ops[i].Denom)
 	}
 	obs.Init = w.snapshot(denoms)
-	for _, op := range cs.Ops {
-		msg, o := w.build(op)
-		r := w.deliver(msg, op.Sender)
-		o.OK, o.Code = r.Code == 0, r.Code
-		o.Snap = w.snapshot(denoms)
-		obs.Ops = append(obs.Ops, o)
+	if len(cs.Ops) > 0 {
+		cs.Ops[0].Join = false
+	}
+	for i := 0; i < len(cs.Ops); {
+		j := i + 1
+		for j < len(cs.Ops) && cs.Ops[j].Join {
+			j++
+		}
+		var msgs []sdk.Msg
+		var senders []int
+		var os []c15OpObs
+		for _, op := range cs.Ops[i:j] {
+			msg, o := w.build(op)
+			msgs, senders, os = append(msgs, msg), append(senders, op.Sender), append(os, o)
+		}
+		r := w.deliver(msgs, senders)
+		sn := w.snapshot(denoms)
+		for _, o := range os { // every message of a tx carries the tx's outcome and the snapshot after the tx
+			o.OK, o.Code, o.Snap = r.Code == 0, r.Code, sn
+			obs.Ops = append(obs.Ops, o)
+		}
+		i = j
 	}
 	// keep only balance entries that are non-zero somewhere in the case
 	nz := map[[2]string]bool{}
@@ -603,8 +633,59 @@ func genC15Case(r *Rng) c15Case {
 			}
 		}
 	}
+	// multi-message txs: a hand-over (or mint / creation) followed IN THE SAME TX by a message that
+	// fails, so that everything is rolled back; then every party tries to mint, burn and hand over
+	if len(g.denoms) > 0 && r.Chance(35, 100) {
+		sd := g.denoms[r.Intn(len(g.denoms))]
+		if sd.admin >= 0 {
+			a := sd.admin
+			b := (a + 1 + r.Intn(nUsers-1)) % nUsers
+			first := c15Op{T: "admin", Sender: a, Denom: sd.denom, NewAdmin: fmt.Sprintf("@%d", b)}
+			if r.Chance(1, 4) {
+				first = c15Op{T: "mint", Sender: a, Denom: sd.denom, Amt: int64(r.Range(1, 50)), Target: fmt.Sprintf("@%d", b)}
+			}
+			tx := []c15Op{first}
+			for k := r.Range(0, 2); k > 0; k-- { // messages that succeed in between
+				tx = append(tx, c15Op{T: "burnnative", Sender: a, Denom: "unibi", Amt: int64(r.Range(1, 5)), Join: true})
+			}
+			signer := a
+			if r.Chance(1, 2) {
+				signer = b // a second signer in the same tx
+			}
+			var last c15Op
+			switch r.Intn(5) {
+			case 0: // blocked mint target
+				last = c15Op{T: "mint", Sender: signer, Denom: sd.denom, Amt: 5, Target: fmt.Sprintf("@%d", nUsers+r.Intn(2))}
+			case 1: // unknown denom
+				last = c15Op{T: "mint", Sender: signer, Denom: sd.denom + "x", Amt: 5}
+			case 2: // insufficient funds
+				last = c15Op{T: "burn", Sender: signer, Denom: sd.denom, Amt: 1_000_000}
+			case 3: // not (or no longer) the admin
+				last = c15Op{T: "mint", Sender: a, Denom: sd.denom, Amt: 5}
+				if first.T != "admin" {
+					last.Sender = b
+				}
+			default: // native burn above the balance
+				last = c15Op{T: "burnnative", Sender: signer, Denom: "unibi", Amt: 1_000_000}
+			}
+			last.Join = true
+			tx = append(tx, last)
+			cs.Ops = append(cs.Ops, tx...)
+			for _, who := range []int{b, a, (b + 1) % nUsers} {
+				cs.Ops = append(cs.Ops, c15Op{T: "mint", Sender: who, Denom: sd.denom, Amt: int64(r.Range(1, 30))})
+				cs.Ops = append(cs.Ops, c15Op{T: "burn", Sender: who, Denom: sd.denom, Amt: int64(r.Range(1, 5)), Target: fmt.Sprintf("@%d", a)})
+				if r.Chance(1, 2) {
+					cs.Ops = append(cs.Ops, c15Op{T: "admin", Sender: who, Denom: sd.denom, NewAdmin: fmt.Sprintf("@%d", who)})
+				}
+			}
+		}
+	}
 	for len(cs.Ops) < n {
-		cs.Ops = append(cs.Ops, g.op())
+		op := g.op()
+		if len(cs.Ops) > 0 && r.Chance(14, 100) {
+			op.Join = true // ordinary multi-message txs, succeeding or not
+		}
+		cs.Ops = append(cs.Ops, op)
 	}
 	return cs
 }
@@ -642,6 +723,16 @@ func openers() []c15Case {
 			{T: "admin", Sender: 0, Denom: D, NewAdmin: "@1"}, {T: "admin", Sender: 1, Denom: D, NewAdmin: "@2"},
 			{T: "admin", Sender: 2, Denom: D, NewAdmin: "@0"}, {T: "mint", Sender: 2, Denom: D, Amt: 5},
 			{T: "mint", Sender: 1, Denom: D, Amt: 5}, {T: "burn", Sender: 0, Denom: D, Amt: 5, Target: "@2"}}},
+		// a tx whose later message fails is rolled back as a whole: the hand-over inside it never happened
+		{Genesis: []c15Gen{}, Ops: []c15Op{
+			{T: "create", Sender: 0, Sub: "gold"}, {T: "mint", Sender: 0, Denom: D, Amt: 100},
+			{T: "admin", Sender: 0, Denom: D, NewAdmin: "@1"}, {T: "mint", Sender: 1, Denom: D, Amt: 5, Target: "@4", Join: true},
+			{T: "mint", Sender: 1, Denom: D, Amt: 7}, {T: "burn", Sender: 1, Denom: D, Amt: 7, Target: "@0"},
+			{T: "admin", Sender: 1, Denom: D, NewAdmin: "@1"}, {T: "mint", Sender: 0, Denom: D, Amt: 3},
+			{T: "admin", Sender: 0, Denom: D, NewAdmin: "@2"}, {T: "mint", Sender: 0, Denom: D, Amt: 5, Join: true},
+			{T: "mint", Sender: 2, Denom: D, Amt: 7}, {T: "mint", Sender: 0, Denom: D, Amt: 3},
+			{T: "admin", Sender: 0, Denom: D, NewAdmin: "@2"}, {T: "mint", Sender: 2, Denom: D, Amt: 9, Join: true},
+			{T: "mint", Sender: 2, Denom: D, Amt: 1}, {T: "mint", Sender: 0, Denom: D, Amt: 1}}},
 		// same subdenom under another creator; duplicate creation; malformed subdenoms
 		{Genesis: []c15Gen{}, Ops: []c15Op{
 			{T: "create", Sender: 0, Sub: "gold"}, {T: "create", Sender: 1, Sub: "gold"}, {T: "create", Sender: 0, Sub: "gold"},
